@@ -18,13 +18,13 @@ import shutil
 from . import common as C
 from .gitsim import Sim, parse_note, REALGIT
 
-GEN_FILES = []
+GEN_FILES = ["GenStats"]
 DRIVERS = ["stats"]
 THEOREMS = ["C19_accepted_le_added", "C19_human_plus_accepted_eq_added", "C19_ai_eq_accepted_plus_mixed",
             "C19_ai_le_added", "C19_accepted_is_intersection", "C19_tool_accepted_sums", "C19_tool_mixed_sums",
             "C19_tool_ai_sums", "C19_tool_totals_sum", "C19_added_deleted_passthrough", "C19_merge_accepted_zero",
             "C19_never_panics", "C19_numstat_totals", "C19_numstat_never_panics", "C19_regressions",
-            "C19_missing_prompt_refuted", "C19_nonvacuous"]
+            "C19_missing_prompt_refuted", "C19_inputs_unpaired", "C19_nonvacuous"]
 CLAIM = {
     "text": "Machine-checked proof (Coq 8.16.1) over an executable Gallina model of stats.rs (overlap by binary "
             "search, accepted lines from attestations with each added line counted once, stats_from_authorship_log with "
@@ -509,6 +509,44 @@ def scenario(args):
         put(p)
         sim.checkpoint_human([p])
 
+    def move_op(style):
+        """rename (git mv) or copy a committed file and edit it: by an agent whose pre-edit checkpoint precedes the
+        move (the note then attributes the whole new path to the session), or by a person"""
+        cands = [q for q in names if q in files and len(files[q]) >= 4]
+        if not cands:
+            return
+        old = r.pick(cands)
+        counter[0] += 1
+        stem, dot, ext = old.rpartition(".")
+        new = f"{stem}_m{counter[0]}.{ext}" if dot else f"{old}_m{counter[0]}"
+        sim.realgit("add", "-A")
+        by_agent = style != "mv_human"
+        if by_agent:
+            sim.checkpoint_human([old, new])
+        if style == "cp_ai":
+            files[new] = list(files[old])
+            names.append(new)
+        else:
+            sim.realgit("mv", old, new)
+            files[new] = files.pop(old)
+            names[names.index(old)] = new
+        ls = files[new]
+        if style == "mv_heavy":
+            for k in range(len(ls)):
+                if r.chance(2, 3):
+                    ls[k] = fresh(1)[0]
+        else:
+            k = r.below(len(ls))
+            if r.chance(1, 2):
+                ls[k] = fresh(1)[0]
+            else:
+                ls[k:k] = fresh(1)
+        put(new)
+        if by_agent:
+            sim.checkpoint_ai(f"s{idx}-mv{counter[0]}", [new], tool=SYS_TOOLS[0][0], model=SYS_TOOLS[0][1])
+        else:
+            sim.checkpoint_human([new])
+
     def commit(msg):
         sim.realgit("add", "-A")
         rc, out, err = sim.git("commit", "-q", "-m", msg)
@@ -528,7 +566,10 @@ def scenario(args):
         for ci in range(ncommits):
             nops = r.range(1, 4)
             for _ in range(nops):
-                op = r.weighted([(40, "ai"), (25, "human"), (10, "two"), (8, "lock"), (6, "bin"), (6, "gen"), (5, "override")])
+                op = r.weighted([(36, "ai"), (22, "human"), (9, "two"), (7, "lock"), (5, "bin"), (5, "gen"), (5, "override"),
+                                 (4, "mv_ai"), (3, "mv_human"), (2, "mv_heavy"), (2, "cp_ai")])
+                if kind % 5 == 4 and ci == 0 and _ == 0:
+                    op = r.pick(["mv_ai", "mv_ai", "mv_human", "mv_heavy", "cp_ai"])
                 p = r.pick(names)
                 if op == "ai":
                     ai_edit(p, f"s{idx}-{ci}-{r.below(3)}", r.pick(SYS_TOOLS))
@@ -550,6 +591,8 @@ def scenario(args):
                     if sim.read(".gitattributes") is None:
                         sim.write(".gitattributes", "schema.sql linguist-generated\ndocs/*.md -linguist-generated\n")
                     ai_edit("schema.sql", f"s{idx}-{ci}-G", SYS_TOOLS[1], 3)
+                elif op in ("mv_ai", "mv_human", "mv_heavy", "cp_ai"):
+                    move_op(op)
                 elif op == "override":
                     # AI writes lines, the human then rewrites some of them in place before the commit
                     q = r.pick([p, p, "Cargo.lock"])
@@ -899,7 +942,7 @@ def run(ctx):
     # ---- (c) system level
     items = [(ctx.scratch, k, ctx.seed, k) for k in range(n_hist)]
     hist = C.parallel_map(scenario, items)
-    sys_commits = sys_ai = n_merge = n_root = n_binary = n_ignored = n_two = n_rename = n_mixed = 0
+    sys_commits = sys_ai = n_merge = n_root = n_binary = n_ignored = n_two = n_rename = n_mixed = n_rename_ai = 0
     agree_bad, noteok_bad, ign_bad = [], [], []
     sys_model_in, sys_expect = [], {}
     ign_cases = []
@@ -948,6 +991,8 @@ def run(ctx):
             if nlines != ea_nr:
                 agree_bad.append(f"{cid}: numstat {ea_nr} vs {nlines} '+' lines")
             inter = inter_count(note, added, ign_paths)
+            if renamed and inter > inter_count(note, {tuple(C.cps(p)): ls for p, ls in parse_u0(rec["u0"]).items()}, ign_paths):
+                n_rename_ai += 1        # pairing the renamed paths would change the accepted count
             tools = st.get("tool_model_breakdown", {})
             sys_ai += st["ai_accepted"] > 0
             n_two += sum(1 for f in (note[0] if note else []) if len(f) > 2)
@@ -959,7 +1004,7 @@ def run(ctx):
                 else:
                     fails.append((f"added/deleted {st['git_diff_added_lines']}/{st['git_diff_deleted_lines']} != numstat {ea}/{ed}", []))
             if st["ai_accepted"] != inter:
-                fails.append((f"accepted {st['ai_accepted']} != |note /\\ added| {inter}", ["K5"] if renamed else []))
+                fails.append((f"accepted {st['ai_accepted']} != |note /\\ added (git diff -U0 --no-renames)| {inter}", []))
             if st["human_additions"] + st["ai_accepted"] != st["git_diff_added_lines"]:
                 fails.append(("human + accepted != added", []))
             if st["ai_additions"] != st["ai_accepted"] + st["mixed_additions"]:
@@ -1066,14 +1111,14 @@ def run(ctx):
                     "extreme overriden_lines, missing prompt records, unsorted / duplicated added lines, 4 ignore pattern "
                     "sets; numstat: well-formed rows (binary, huge counts, ignored and rename-form paths) and a malformed "
                     "stream; system: histories with root AI commits, no-ff merges, conflict merges resolved by AI, binary "
-                    "and lock files, linguist-generated files, two sessions per file, human overrides, renames. "
+                    "and lock files, linguist-generated files, two sessions per file, human overrides, renames and copies (git mv / cp + edit by an agent whose pre-edit checkpoint precedes the move, by a person, with a heavy edit). "
                     "A case counts as non-trivial if accepted > 0 or the breakdown is non-empty (stats), a row is "
                     "counted (numstat); distinct by input",
             "samples": samples,
             "input_distribution": dict(dist, numstat=ns_hist,
                                        system={"commits": sys_commits, "with_ai_accepted": sys_ai, "merges": n_merge,
                                                "roots": n_root, "with_binary": n_binary, "with_ignored_file": n_ignored,
-                                               "files_with_two_sessions": n_two, "renames": n_rename,
+                                               "files_with_two_sessions": n_two, "renames": n_rename, "renames_where_pairing_would_change_accepted": n_rename_ai,
                                                "with_mixed": n_mixed}),
             "hypothesis_hit_rate": {"note_ok and numstat agreement (in-process)": f"{n_hyp}/{len(cases)}"},
             "oracle_failures_in_known_classes": n_known_fail,
